@@ -8,10 +8,14 @@ _PROHIBITED = (sp.in_table_c12, sp.in_table_c21, sp.in_table_c22, sp.in_table_c3
                sp.in_table_c5, sp.in_table_c6, sp.in_table_c7, sp.in_table_c8, sp.in_table_c9)
 
 
-def saslprep(s):
+def saslprep(s, both_tables_to="space"):
+    """both_tables_to: RFC 3454 lists U+200B in C.1.2 (map to space) AND in B.1 (map to nothing) and RFC 4013 does not
+    order the two mappings; 'space' / 'nothing' selects the reading (callers accept either)"""
     # 2.1 mapping
     out = []
     for ch in s:
+        if sp.in_table_c12(ch) and sp.in_table_b1(ch) and both_tables_to == "nothing":
+            continue
         if sp.in_table_c12(ch):
             out.append(" ")
         elif sp.in_table_b1(ch):
